@@ -221,7 +221,8 @@ func (this *UTFCodec) Forward(src, dst []byte) (uint, uint, error) {
 		}
 	}
 
-	if estimate >= maxTarget {
+	// The estimate must account for the symbol map (3 bytes per symbol) already emitted
+	if estimate+3*n >= maxTarget {
 		return 0, uint(dstIdx), errors.New("UTF forward transform skip: no improvement")
 	}
 
